@@ -83,6 +83,48 @@ Proof.
   exact (proj2 (flatten_walk h' top strict B1 B2 B3 B4 B5 n e' ds tr st (ex_intro _ bn' (ex_intro _ pn' (conj Hbn' Hkn')))) W3).
 Qed.
 
+Theorem rl_insertion_keeps_ctrace h h' top new t P cls G' strict :
+  flat_okb h top true = true -> flat_okb h' top true = true ->
+  insert_block (RL h) new P [t] cls = Ok G' ->
+  (forall x, efind (RL h') x = efind G' x) ->
+  NoDup P -> ~ In new P ->
+  (forall p b, In p P -> efind (RL h) p = Some b ->
+     NoDup (e_jt b) /\ ~ In new (e_jt b) /\ (forall c w tb, e_kind b = EBranch c w tb -> NoDup (map fst tb))) ->
+  efind (RL h) new = None -> new <> top -> cls <> 100 -> In t (ekeys (RL h)) ->
+  orig_keptb h h' = true ->
+  forall n e e' ds,
+    (exists b p, find h n = Some b /\ n_kind b = KOrig p) -> E Fn e e' ->
+    CTrace h (resolve_flat h) strict n e ds -> CTrace h' (resolve_flat h') strict n e' ds.
+Proof.
+  intros Fh Fh' Hib Hlk Hnd Hnew Hpjt Hfresh Htop Hcls Ht Hkept n e e' ds Hn He W.
+  destruct (flat_okb_sound h top true Fh) as [A1 [A2 [A3 [A4 A5]]]].
+  destruct (flat_okb_sound h' top true Fh') as [B1 [B2 [B3 [B4 B5]]]].
+  destruct Hn as [bn [pn [Hbn Hkn]]].
+  destruct (orig_keptb_sound h h' Hkept n bn pn Hbn Hkn) as [bn' [pn' [Hbn' Hkn']]].
+  apply (proj1 (flatten_ctrace h top strict A1 A2 A3 A4 A5 n e ds (ex_intro _ bn (ex_intro _ pn (conj Hbn Hkn))))) in W.
+  assert (HnG : exists b, efind (RL h) n = Some b /\ e_kind b = EPlain 100).
+  { exists (rl h bn). split; [rewrite (efind_RL' h n A1), Hbn; unfold is_region; rewrite Hkn; reflexivity|]. unfold rl. cbn. rewrite Hkn. reflexivity. }
+  assert (W2 : CTrace (ehier top G') (resolve_flat (ehier top G')) strict n e' ds).
+  { eapply (insert_block_one_keeps_ctrace (RL h) top new t P cls G' strict Hib).
+    - split; assumption.
+    - exact Hpjt.
+    - repeat split; assumption.
+    - intros Hi. apply A2. apply ekeys_RL. exact Hi.
+    - exact Ht.
+    - intros x b t0 Hb Ht0. destruct (efind (RL h) t0) as [bt|] eqn:Et; [eapply efind_keys; eauto|].
+      exfalso. exact (RL_closed h A1 A4 x b t0 Hb Ht0 Et).
+    - exact HnG.
+    - exact He.
+    - exact W. }
+  assert (W3 : CTrace (ehier top (RL h')) (resolve_flat (ehier top (RL h'))) strict n e' ds).
+  { assert (HnG' : exists b, efind (RL h') n = Some b /\ e_kind b = EPlain 100).
+    { exists (rl h' bn'). split; [rewrite (efind_RL' h' n B1), Hbn'; unfold is_region; rewrite Hkn'; reflexivity|].
+      unfold rl. cbn. rewrite Hkn'. reflexivity. }
+    apply (proj2 (ehier_congr_c (RL h') G' top strict Hlk (fun Hi => B2 (ekeys_RL h' top Hi)) (RL_closed h' B1 B4) n e' ds HnG')).
+    exact W2. }
+  exact (proj2 (flatten_ctrace h' top strict B1 B2 B3 B4 B5 n e' ds (ex_intro _ bn' (ex_intro _ pn' (conj Hbn' Hkn')))) W3).
+Qed.
+
 (* the block a predecessor is left through: a region's exiting block, recursively *)
 Fixpoint exit_leaf (h : hier) (fuel : nat) (p : name) : name :=
   match fuel with
@@ -134,6 +176,32 @@ Proof.
   - exact Bk.
 Qed.
 
+Theorem rl_insertion_keeps_ctrace_b h ha top new t P cls strict :
+  rl_ins_okb h ha top new t P cls = true ->
+  forall n e e' ds,
+    (exists b p, find h n = Some b /\ n_kind b = KOrig p) -> E Fn e e' ->
+    CTrace h (resolve_flat h) strict n e ds -> CTrace ha (resolve_flat ha) strict n e' ds.
+Proof.
+  unfold rl_ins_okb. intros H.
+  apply andb_true_iff in H as [H Bk]. apply andb_true_iff in H as [H Bt]. apply andb_true_iff in H as [H Bc].
+  apply andb_true_iff in H as [H Bn]. apply andb_true_iff in H as [H Bf]. apply andb_true_iff in H as [H Bp].
+  apply andb_true_iff in H as [H Bnp]. apply andb_true_iff in H as [H Bnd]. apply andb_true_iff in H as [H Bi].
+  apply andb_true_iff in H as [Fh Fha].
+  destruct (insert_block (RL h) new P [t] cls) as [G'| |] eqn:Hib; try discriminate.
+  apply (rl_insertion_keeps_ctrace h ha top new t P cls G' strict Fh Fha Hib (lookups_eqb_sound _ _ Bi)).
+  - apply nodupb_sound. exact Bnd.
+  - apply negb_true_iff in Bnp. apply zmem_false in Bnp. exact Bnp.
+  - intros p b Hp Hb. rewrite forallb_forall in Bp. specialize (Bp p Hp). rewrite Hb in Bp.
+    apply andb_true_iff in Bp as [X X3]. apply andb_true_iff in X as [X1 X2].
+    split; [apply nodupb_sound; exact X1|]. split; [apply negb_true_iff in X2; apply zmem_false in X2; exact X2|].
+    intros c w tb Ek. rewrite Ek in X3. apply nodupb_sound. exact X3.
+  - destruct (efind (RL h) new); [discriminate|reflexivity].
+  - apply negb_true_iff in Bn. apply Z.eqb_neq in Bn. exact Bn.
+  - apply negb_true_iff in Bc. apply Z.eqb_neq in Bc. exact Bc.
+  - apply zmem_In. exact Bt.
+  - exact Bk.
+Qed.
+
 (* the column for an insertion in front of one successor with a region among the predecessors: 7 when the
    implementation's hierarchy is the flat insertion on the leaf graphs *)
 Definition ins_rl_col_of (h ha : hier) (new e0 : name) (preds : list name) (cls : Z) : Z :=
@@ -148,4 +216,15 @@ Proof.
   unfold ins_rl_col_of.
   destruct (rl_ins_okb h ha TOP new (rho h e0) (map (exit_leaf h (S (length h))) preds) cls) eqn:E0; [|discriminate].
   intros _. exact (rl_insertion_keeps_walks_b h ha TOP new (rho h e0) _ cls strict E0).
+Qed.
+
+Theorem ins_rl_col_sound_c h ha new e0 preds cls strict :
+  ins_rl_col_of h ha new e0 preds cls = 7 ->
+  forall n e e' ds,
+    (exists b p, find h n = Some b /\ n_kind b = KOrig p) -> E Fn e e' ->
+    CTrace h (resolve_flat h) strict n e ds -> CTrace ha (resolve_flat ha) strict n e' ds.
+Proof.
+  unfold ins_rl_col_of.
+  destruct (rl_ins_okb h ha TOP new (rho h e0) (map (exit_leaf h (S (length h))) preds) cls) eqn:E0; [|discriminate].
+  intros _. exact (rl_insertion_keeps_ctrace_b h ha TOP new (rho h e0) _ cls strict E0).
 Qed.
